@@ -100,6 +100,9 @@ pub struct Ctx {
     sample_seen: u64,
     pub violations: Vec<Violation>,
     pub violation_count: u64,
+    /// class-level findings (see KNOWN_FINDINGS.txt `class=` entries): judged by the driver through a rate bound
+    pub soft: Vec<Violation>,
+    pub soft_count: u64,
     pub exhaustive: BTreeMap<String, bool>,
     pub notes: Vec<String>,
     pub harness_errors: Vec<String>,
@@ -126,6 +129,8 @@ impl Ctx {
             sample_seen: 0,
             violations: Vec::new(),
             violation_count: 0,
+            soft: Vec::new(),
+            soft_count: 0,
             exhaustive: BTreeMap::new(),
             notes: Vec::new(),
             harness_errors: Vec::new(),
@@ -182,6 +187,13 @@ impl Ctx {
             self.violations.push(Violation { check: check.to_string(), case: case.clone(), detail: detail.into() });
         }
     }
+    pub fn soft_violation(&mut self, check: &str, case: &Case, detail: impl Into<String>) {
+        self.soft_count += 1;
+        self.count(&format!("soft.{}", check));
+        if self.soft.len() < 60 {
+            self.soft.push(Violation { check: check.to_string(), case: case.clone(), detail: detail.into() });
+        }
+    }
     pub fn harness_error(&mut self, msg: impl Into<String>) {
         if self.harness_errors.len() < 50 {
             self.harness_errors.push(msg.into());
@@ -211,7 +223,14 @@ impl Ctx {
                     .set("key", J::s(v.key()))
             })
             .collect();
+        let soft: Vec<J> = self
+            .soft
+            .iter()
+            .map(|v| J::obj().set("check", J::s(&v.check)).set("case", J::s(v.case.flat())).set("detail", J::s(&v.detail)).set("key", J::s(v.key())))
+            .collect();
         J::obj()
+            .set("soft", J::Arr(soft))
+            .set("soft_count", J::i(self.soft_count))
             .set("property", J::s(&self.prop))
             .set("shard", J::i(self.shard))
             .set("nshards", J::i(self.nshards))
